@@ -241,8 +241,13 @@ def cases(ctx):
         ".db 1\n{\n.db 2\n{INC}.db 3\n}\n.db 4\n", ".macro zz_p() {\n.db 7\n{INC}.db 8\n}\n.db 1\nzz_p()\n.db 2\n",
         ".for zz_i := 0, 2 {\n.db zz_i\n{INC}}\n.db 9\n", ".if 1 {\n.db 5\n{INC}}\n.db 6\n",
         # ONE directive generated several times with a different delta each time (macro parameter / := constant)
-        ".macro zz_pb(d) {\n.include_ips 'p.ips', d + DELTA\n}\n.db 1\nzz_pb(0)\nzz_pb(0x8000)\nzz_pb(0x20)\n.db 2\n",
-        ".macro zz_pc(c) {\n{{c}}\n{{c}}\n}\nzz_d := 0\nzz_pc({\n.include_ips 'p.ips', DELTA\n})\n.db 3\n",
+    ]
+    # ONE directive generated several times with a different delta each time (macro parameter), or twice through a splice:
+    # (body, the deltas of the successive expansions relative to DELTA)
+    multi = [
+        (".macro zz_pb(d) {\n.include_ips 'p.ips', d + DELTA\n}\n.db 1\nzz_pb(0)\nzz_pb(0x8000)\nzz_pb(0x20)\n.db 2\n", [0, 0x8000, 0x20]),
+        (".macro zz_pc(c) {\n{{c}}\n{{c}}\n}\nzz_pc({\n.include_ips 'p.ips', DELTA\n})\n.db 3\n", [0, 0]),
+        (".macro zz_pd(d) {\n.include_ips 'p.ips', DELTA + d * 0x100\n}\nzz_pd(3)\n.db 4\nzz_pd(1)\nzz_pd(2)\n", [0x300, 0x100, 0x200]),
     ]
     for rom, org, reloc in (("low", 0x018000, 0x80A000), ("high", 0x410000, 0x428000)):
         for recs, delta in (([(0x20000, b"\xde\xad\xbe\xef")], 0), ([(0x300, b"ab"), (0x500, b"cdef")], -0x200),
@@ -254,6 +259,12 @@ def cases(ctx):
                        .replace("ORG2", f"{org + 0x10000:#08x}").replace("RELOC", f"{reloc:#08x}"))
                 out.append({"kind": "in-program", "prog": True, "rom": rom, "trace": True, "files": {"p.ips": patch_of(recs)},
                             "spec": {"t": "blocks", "high": rom == "high"}, "src": src})
+            if delta >= 0:
+                for body, ds in multi:
+                    src = f"*={org:#08x}\n" + body.replace("DELTA", str(delta))
+                    expected = [[list(d_), o + delta + extra] for extra in ds for o, d_ in recs]
+                    out.append({"kind": "in-program-multi", "prog": True, "rom": rom, "trace": True, "files": {"p.ips": patch_of(recs)},
+                                "spec": {"t": "blocks", "high": rom == "high", "ips_expected": expected}, "src": src})
     return out
 
 
